@@ -205,4 +205,7 @@ def run(db, chk):
     chk.absorb(db, "C16", {"C16-T1"}, "C19-L5", "every member compute_basins reads is carried into graph snapshots "
                "(shared with C16-T1): labels of a snapshot follow the snapshot's own receivers",
                pred=lambda o: "compute_basins" in o["instance"], min_instances=3)
+    chk.absorb(db, "C04", {"C04-S1"}, "C19-L6", "no unmasked node is routed into a masked neighbour and masked nodes keep "
+               "themselves as receiver (shared with C04-S1): a node's label is its receiver's, and masked nodes carry the "
+               "reserved label", pred=lambda o: "masked" in o["instance"], min_instances=50)
     chk.count_scenarios(n_sc, True)
